@@ -42,7 +42,7 @@ let zpos z = (match z with Zpos _ -> true | _ -> false)
 
 (* ---- states ---- *)
 type comp = { kind : char; empty : bool; cons : con list; cgs : pcg list }
-type st = { sid : int; flag : bool; dim : int; c1 : comp; c2 : comp; ok : bool }
+type st = { sid : int; flag : bool; dim : int; c1 : comp; c2 : comp; ok : bool; ok1 : bool; ok2 : bool; idem : bool }
 
 let read_comp c dim =
   let k = (next c).[0] in let e = nexti c = 1 in
@@ -53,8 +53,8 @@ let parse_st line =
   let c = { t = split line } in
   expect c "st"; let sid = nexti c in let flag = nexti c = 1 in let dim = nexti c in
   expect c "|"; let c1 = read_comp c dim in expect c "|"; let c2 = read_comp c dim in
-  expect c "|"; expect c "ok"; let ok = nexti c = 1 in
-  { sid; flag; dim; c1; c2; ok }
+  expect c "|"; expect c "ok"; let ok = nexti c = 1 in let ok1 = nexti c = 1 in let ok2 = nexti c = 1 in let idem = nexti c = 1 in
+  { sid; flag; dim; c1; c2; ok; ok1; ok2; idem }
 
 (* ---- time budget ---- *)
 exception Timeout
@@ -193,6 +193,32 @@ let is_poly w = match !pair, w with
   | "CG", 1 | "GC", 2 | "NG", 1 | "CN", _ | "NN", _ | "BC", 2 | "SC", 2 -> true | _ -> false
 let relax_con k = if k.ckd = GT then { k with ckd = GE } else k
 
+let nth_q p i = List.nth p i
+let set_nth p i v = List.mapi (fun j x -> if j = i then v else x) p
+let qdiv_z (a : q) (d : z) = j_qmul a (match d with Zpos p -> j_qmake (z_of_int 1) p | Zneg p -> j_qmake (z_of_int (-1)) p | Z0 -> q_of_int 0)
+let leval_pt (e : lin) p =
+  List.fold_left j_qadd (inject_Z e.lcst) (List.mapi (fun i a -> if i < List.length p then j_qmul (inject_Z a) (nth_q p i) else q_of_int 0) e.lcoefs)
+
+(* OK(): when it fails only because a flagged product is not a fixpoint of its reduction, say so *)
+let check_ok (n : st) what =
+  incr checks;
+  if not n.ok && not (n.ok1 && n.ok2) then bump "not-owned:component-OK-false"   (* the invariant of a COMPONENT object: C03-C05's subject *)
+  else if not n.ok then
+    fail "ok" ((if n.ok1 && n.ok2 && n.flag && not n.idem then "[not-idempotent] " else "") ^ "OK() false after " ^ what)
+
+(* Grid::max_min root cause (inhomogeneous term not scaled by the divisor of the point): can only show when a grid
+   whose point has a non-integer coordinate is asked to bound an expression with a non-zero inhomogeneous term *)
+let grid_point dim (c : comp) = if c.kind <> 'G' || c.empty then None else
+  match timed (fun () -> j_grid_gens (nat dim) c.cgs) None with
+  | Some g -> (match List.filter_map (function QPoint v -> Some (pad dim v) | _ -> None) g with p :: _ -> Some p | [] -> None)
+  | None -> None
+let nonintegral p = List.exists (fun (x : q) -> (qred x).qden <> XH) p
+let maxmin_suspect_expr dim (b : comp) (e : lin) =
+  (not (is_z0 e.lcst)) && (match grid_point dim b with Some p -> nonintegral p | None -> false)
+let maxmin_suspect dim (a : comp) (b : comp) =
+  List.exists (fun g -> not (is_z0 g.gm) && maxmin_suspect_expr dim b g.ge) a.cgs
+let tag_maxmin = "[grid-maxmin] "
+
 (* ---- reduce-like transition ---- *)
 let check_reduce_like (o : st) (n : st) ~(must_flag : bool) =
   let dim = o.dim in
@@ -202,7 +228,8 @@ let check_reduce_like (o : st) (n : st) ~(must_flag : bool) =
   witness := "";
   let mo = meet_of o and mn = meet_of n in
   let v = incl_meet dim mo mn in
-  judge "reduce/lost-point" ("a point of the intersection was lost " ^ !witness) v;
+  let tag = if v = Some false && (!red = 'G' || !red = 'P') && (maxmin_suspect dim o.c1 o.c2 || maxmin_suspect dim o.c2 o.c1) then tag_maxmin else "" in
+  judge "reduce/lost-point" (tag ^ "a point of the intersection was lost " ^ !witness) v;
   if exact mo && exact mn then bump "meet-exact" else bump "meet-sampled";
   if o.flag then begin
     if not n.flag then (incr checks; fail "flag/cleared" "reduced flag cleared by a non-mutator");
@@ -244,7 +271,7 @@ let check_reduce_like (o : st) (n : st) ~(must_flag : bool) =
      | _ ->
        (* all reductions: an empty component afterwards forces the other one empty (smash postcondition) *)
        (match comp_is_empty dim n.c1, comp_is_empty dim n.c2 with
-        | Some a, Some b when a <> b && !red <> 'D' -> incr checks; fail "reduce/model" "exactly one component empty after the reduction"
+        | Some a, Some b when a <> b && (!red = 'K' || !red = 'S') -> incr checks; fail "reduce/model" "exactly one component empty after the reduction"
         | _ -> incr checks))
   end
 
@@ -279,6 +306,21 @@ let check_shrink (o : st) dir (c : cur) =
       chk "maximize" rx xn xd xi (timed (fun () -> j_sup (nat dim) g.ge sb) None);
       chk "minimize" rm mn md mi (timed (fun () -> j_inf (nat dim) g.ge sb) None)
     end;
+    let law_broken = ref false in
+    if b.kind = 'G' then begin
+      (* a grid bounds an expression only when it is constant on it: its value at the grid's point *)
+      match grid_point dim b with
+      | Some p ->
+        let v = leval_pt g.ge p in
+        let chk what r nn dd = if r then begin
+          incr checks;
+          if not (zpos dd) || not (qeq_bool (qmult v (inject_Z dd)) (inject_Z nn)) then begin
+            law_broken := true;
+            fail ("shrink/" ^ what) ((if maxmin_suspect_expr dim b g.ge then tag_maxmin else "") ^ "Grid::" ^ what ^ " returned " ^ string_of_z nn ^ "/" ^ string_of_z dd ^ ", the expression is constantly " ^ string_of_q v)
+          end end in
+        chk "maximize" rx xn xd; chk "minimize" rm mn md
+      | None -> ()
+    end;
     let out = if rx && rm then shrink_decide g.gm ((xn, xd), xi) ((mn, md), mi) else ShUnchanged in
     (match out with
      | ShUnchanged ->
@@ -306,15 +348,10 @@ let check_shrink (o : st) dir (c : cur) =
        expect_comp "first" wa a a'; expect_comp "second" wb b b');
     (* independent of the model: no common point may be lost *)
     witness := "";
-    judge "shrink/lost-point" ("a common point was lost " ^ !witness) (incl_meet dim (inter (comp_meet a) (comp_meet b)) (inter (comp_meet a') (comp_meet b')))
+    judge "shrink/lost-point" ((if !law_broken && maxmin_suspect_expr dim b g.ge then tag_maxmin else "") ^ "a common point was lost " ^ !witness) (incl_meet dim (inter (comp_meet a) (comp_meet b)) (inter (comp_meet a') (comp_meet b')))
   end
 
 (* ---- exact images on constraint systems; sampled images on points ---- *)
-let nth_q p i = List.nth p i
-let set_nth p i v = List.mapi (fun j x -> if j = i then v else x) p
-let qdiv_z (a : q) (d : z) = j_qmul a (match d with Zpos p -> j_qmake (z_of_int 1) p | Zneg p -> j_qmake (z_of_int (-1)) p | Z0 -> q_of_int 0)
-let leval_pt (e : lin) p =
-  List.fold_left j_qadd (inject_Z e.lcst) (List.mapi (fun i a -> if i < List.length p then j_qmul (inject_Z a) (nth_q p i) else q_of_int 0) e.lcoefs)
 
 (* image check: [exact_img] builds the exact image system from the old meet's system (None: not available);
    [pt_img] maps a sample point of the old meet to points that must be in the new meet *)
@@ -380,13 +417,13 @@ let () =
            | "new" | "copy" | "set" | "setempty" ->
              let id = nexti c in
              List.iter (fun n -> if n.sid <> id then (match old n.sid with Some o -> check_reduce_like o n ~must_flag:false | None -> ())) news;
-             List.iter (fun n -> if n.sid = id then begin incr checks; if not n.ok then fail "ok" "OK() false after construction" end) news;
+             List.iter (fun n -> if n.sid = id then check_ok n "construction") news;
              bump ("cmd:" ^ cmd)
            | "red" ->
              let id = nexti c in
              List.iter (fun n -> match old n.sid with
                | Some o -> check_reduce_like o n ~must_flag:(n.sid = id);
-                 incr checks; if not n.ok then fail "ok" "OK() false after reduce()"
+                 check_ok n "reduce()"
                | None -> ()) news;
              bump "cmd:red"
            | "shrink" ->
@@ -402,7 +439,7 @@ let () =
              let reducing = not (List.mem q ["is_universe"]) in
              List.iter (fun n -> match old n.sid with
                | Some o -> check_reduce_like o n ~must_flag:(reducing && n.sid = id && not exn);
-                 incr checks; if not n.ok then fail "ok" ("OK() false after " ^ q)
+                 check_ok n q
                | None -> ()) news;
              if not exn then begin
                match old id with
@@ -457,7 +494,8 @@ let () =
                           then { ccoefs = List.map (fun a -> zneg (Z.mul d a)) e.lcoefs; ccst = Z.sub n (Z.mul d e.lcst); ckd = GE }
                           else { ccoefs = List.map (fun a -> Z.mul d a) e.lcoefs; ccst = Z.sub (Z.mul d e.lcst) n; ckd = GE } in
                         witness := "";
-                        judge k ("returned bound is exceeded in the intersection " ^ !witness) (incl_meet dim mx (restrict universe [bound] []))
+                        let tag = if maxmin_suspect_expr dim x.c1 e || maxmin_suspect_expr dim x.c2 e then tag_maxmin else "" in
+                        judge k (tag ^ "returned bound is exceeded in the intersection " ^ !witness) (incl_meet dim mx (restrict universe [bound] []))
                       end
                     end else bump "answer-indefinite"
                   | "bounds_from_above" | "bounds_from_below" ->
@@ -486,7 +524,7 @@ let () =
              List.iter (fun n -> if n.sid <> id then (match old n.sid with Some o -> check_reduce_like o n ~must_flag:false | None -> ())) news;
              (match old id, List.find_opt (fun n -> n.sid = id) news with
               | Some x, Some x' when not exn ->
-                incr checks; if not x'.ok then fail "ok" ("OK() false after " ^ op);
+                check_ok x' op;
                 let dim = x.dim in
                 let mo = meet_of x and mn = meet_of x' in
                 let argm () = let y = nexti c in match old y with Some s -> s | None -> raise (Syntax "unknown arg") in
@@ -531,7 +569,7 @@ let () =
                     | None -> incr checks; undec kfail
                     | Some qs ->
                       let qs = List.filteri (fun i _ -> i < 12) qs in
-                      check_image kfail dim mo dim mn None (fun p -> List.concat_map (fun qv -> List.map (fun t -> vadd p (vscale t qv)) [q_of_int 0; q_of_int 1; q_half 1; q_of_int 3]) qs))
+                      check_image kfail dim mo dim mn None (fun p -> List.concat_map (fun qv -> List.map (fun t -> vadd p (vscale t qv)) [q_of_int 0; q_of_int 1; q_of_int 2; q_of_int 3]) qs))
                  | "concatenate_assign" ->
                    let y = argm () in let my = meet_of y in
                    (match timed (fun () -> samples_of y.dim my) None with
